@@ -318,7 +318,41 @@ func (cl *cluster) serveRealAgent(n int, w http.ResponseWriter, method, path str
 		req.Header.Set("Content-Type", "application/json")
 	}
 	rec := httptest.NewRecorder()
-	h.ServeHTTP(rec, req)
+	if method == "POST" && cl.failSpawn {
+		// the agent cannot start the child at all (fork/exec fails: no file descriptor left): the soft limit is zero
+		// exactly while the agent's launch goroutine tries, i.e. until it has logged its failure
+		cl.failSpawn = false
+		cl.cnt["child_spawn_failures_injected"]++
+		var lim, zero syscall.Rlimit
+		syscall.Getrlimit(syscall.RLIMIT_NOFILE, &lim)
+		zero = lim
+		zero.Cur = 0
+		logMu.Lock()
+		mark := logBuf.Len()
+		logMu.Unlock()
+		syscall.Setrlimit(syscall.RLIMIT_NOFILE, &zero)
+		h.ServeHTTP(rec, req)
+		deadline := time.Now().Add(20 * time.Second)
+		for {
+			logMu.Lock()
+			l := logBuf.String()
+			logMu.Unlock()
+			if mark > len(l) {
+				mark = 0
+			}
+			if strings.Contains(l[mark:], "Failed to launch") || time.Now().After(deadline) {
+				break
+			}
+			time.Sleep(100 * time.Microsecond)
+		}
+		syscall.Setrlimit(syscall.RLIMIT_NOFILE, &lim)
+		atomic.StoreInt32(&spawnFailPolls, 1)
+	} else {
+		h.ServeHTTP(rec, req)
+	}
+	if method == "GET" && atomic.LoadInt32(&spawnFailPolls) > 0 {
+		atomic.AddInt32(&spawnFailPolls, 1) // the cleaner polls the process that never started
+	}
 	out := rec.Body.Bytes()
 	var m map[string]interface{}
 	if json.Unmarshal(out, &m) == nil && m["id"] != nil {
@@ -527,6 +561,14 @@ func (cl *cluster) tick(node int, foldFails bool) {
 	ch <- time.Now()
 	deadline := time.Now().Add(30 * time.Second)
 	for cleanersBusy() > 0 {
+		if atomic.LoadInt32(&spawnFailPolls) > 6 {
+			// the child never started and the agent keeps reporting "still running": the cleaner polls on (on the pinned
+			// tree for ever - a stuck cleaner deletes nothing).  Five polls later the agent stops answering (as if it had
+			// been restarted): the poll fails, the cleaner gives this iteration up and goes back to its ticker.
+			atomic.StoreInt32(&spawnFailPolls, 0)
+			atomic.StoreInt32(&refuseAgentPolls, 1)
+			cl.cnt["cleaners_stuck_polling"]++
+		}
 		if time.Now().After(deadline) {
 			cl.violate("wedged", "cleaner-wedged", "the snapshot cleaner did not finish its iteration within 30 s")
 			break
@@ -535,4 +577,10 @@ func (cl *cluster) tick(node int, foldFails bool) {
 		time.Sleep(50 * time.Microsecond)
 	}
 	cl.failFold = false
+	atomic.StoreInt32(&refuseAgentPolls, 0)
 }
+
+// spawnFailPolls: 0 = no injected spawn failure is being polled; else 1 + number of polls of the process that never
+// started.  refuseAgentPolls: the sync agents refuse connections.  Both are touched by the cleaner's goroutine (through
+// the transport) while the harness goroutine waits in tick(): atomics, no cluster map.
+var spawnFailPolls, refuseAgentPolls int32
